@@ -4,8 +4,8 @@ Core Lean only.
 
 Python objects live on an explicit heap so that *aliasing* is a statement about addresses:
 
-* `Heap = List Cell`, an address is an index, allocation appends (`alloc`), a write replaces
-  one cell (`List.set`).  Nothing is ever freed.
+* `Heap = List Cell`, an address is an index (a plain `Nat`), allocation appends (`h ++ [c]`),
+  a write replaces one cell (`List.set`).  Nothing is ever freed.
 * `Val` is what an attribute / container slot holds: an immutable value (`imm`: None, numbers,
   strings, tuples of those, functions, partials — things `Copyable.copy` shares because they
   have no `.copy`, and whose sharing is harmless) or a reference `ref a`.
@@ -30,6 +30,16 @@ place before anything else can see it (the new object, whose `__dict__` is fille
 attribute; the freshly copied `_landmark_groups` / `_labels_to_masks` dict, whose values are
 replaced by copies one key at a time) is allocated *after* its slots have been computed.  As a
 consequence `copyCall` only ever appends cells: it never writes to an existing one.
+
+Reuse (C02 and others).  Everything lives in `namespace MenpoModel.C06`:
+  this file           `Val Cell Heap copyCall Reach Own absF absO Closed Valid Ext kindOf wtHeap copyWF DeepHeap`
+  Lemmas/C06Heap      extension / closedness / frame lemmas (`absF_ext`, `absF_frame`, `absO_frame`, `reach_old`)
+  Lemmas/C06Copy      `Ctx`, `Basic`, `copy_basic` (copy only allocates, result new, same unfolding) — no table needed
+  Lemmas/C06Fresh     `copy_no_attr`, `copy_fresh` (owned cells of the copy are new) under `DeepHeap`
+  Lemmas/C06Total     `Ordered`, `copy_succeeds`
+  Props/C06           the property theorems and `deepHeap_of_tables` (tables ⇒ `DeepHeap`)
+"In-place method returns self and mutates cell a" is `List.set`; "mutates nothing" is `Ext h h'` (or agreement
+on the cells reachable from the argument, see `absF_frame`).
 -/
 
 namespace MenpoModel.C06
